@@ -333,6 +333,52 @@ def specs_untouched(ctx, specs, pristine, when):
             pristine[sk] = (copy.deepcopy(S), hash(S))
 
 
+def long_lived_interpreter(ctx, specs, expect):
+    """ONE spec-carrying interpreter that lives through a history: unspecialised kernels, kernels compiled with ANOTHER spec (one of which
+    fails at run time, K10), unspecialised kernels again - every unspecialised run plays what its kernel means under the interpreter's own
+    spec, whatever ran (or failed) on that interpreter before"""
+    n = 0
+    for own, other in (("B", "A"), ("A", "B"), ("C", "B")):
+        w = World(specs)
+        plain = {k: kernels.define("@move\n" + KERNELS[k], **w.ns)[k] for k in ("K1", "K2", "K4")}
+        foreign = {}
+        # K11: plays a device call (its path.gen carries the spec it was compiled with), then fails
+        extra = {"K11": "def K11():\n    lib_hopx(0.5)\n    gate.global_rz(spec.get_float_constant(constant_id=\"rows\"))\n    return 11\n"}
+        for k in ("K10", "K11", "K2", "K1", "K6"):
+            try:
+                foreign[k] = kernels.define("@move(arch_spec=S)\n" + {**KERNELS, **extra}[k], S=specs[other], **w.ns)[k]
+            except Exception as e:
+                ctx.fail({"kind": "compile-fails", "kernel": k}, {"long_lived": True, "own": own, "other": other}, f"compiling {k} with spec {other} raised {type(e).__name__}: {str(e)[:100]}")
+        it = events.make_interp(specs[own])
+        steps = [("plain", "K1"), ("foreign", "K2"), ("plain", "K2"), ("foreign", "K10"), ("plain", "K1"), ("foreign", "K6"), ("plain", "K4"), ("foreign", "K11"),
+                 ("plain", "K1"), ("plain", "K4"), ("foreign", "K1"), ("plain", "K2")]
+        for pos, (how, k) in enumerate(steps):
+            m = plain[k] if how == "plain" else foreign.get(k)
+            if m is None:
+                continue
+            start = len(it.events)
+            try:
+                res = it.run(m, tuple(KARGS.get(k, ())), {})
+                got = log_text("ok", it.events[start:], res)
+            except Exception as e:
+                got = log_text("err", it.events[start:], None)
+            ctx.evaluations += 1
+            n += 1
+            if how != "plain":
+                continue
+            want = expect[(k, own)]
+            if got[:2] != want[:2]:
+                j = next((j for j in range(min(len(got[1]), len(want[1]))) if got[1][j] != want[1][j]), min(len(got[1]), len(want[1])))
+                ctx.fail({"kind": "kernel-observes-wrong-spec", "kernel": k, "reference": "one long-lived interpreter", "own": own},
+                         {"long_lived": True, "own": own, "other": other, "step": pos},
+                         f"one interpreter carrying spec {own}: after the steps {steps[:pos]} (foreign = compiled with spec {other}) the unspecialised {k} plays "
+                         f"{(got[1][j] if j < len(got[1]) else '<none>' if got[0] == 'ok' else 'an error')[:100]} where spec {own} means {(want[1][j] if j < len(want[1]) else '<none>')[:100]}")
+                break
+        else:
+            ctx.nt(("long-lived-interpreter", own, other))
+    ctx.count("runs on one long-lived spec-carrying interpreter (unspecialised kernels around kernels compiled with another spec, one failing)", n)
+
+
 def translated_library_spec(ctx):
     """the Gemini logical library (vertical_shift and the helper kernels it reaches: get_block, calc_vertical_shifts, move_by_shift) under the
     stock spec and under a copy of it whose every zone is translated by (+1000, +500): a kernel compiled with / run under the translated
@@ -342,7 +388,21 @@ def translated_library_spec(ctx):
     from bloqade.shuttle.arch import ArchSpec
     from bloqade.shuttle.stdlib.layouts.gemini import logical
     DX, DY = 1000.0, 500.0
+    # specs built WITHOUT constants of their own, before the Gemini spec (which extends its own tables after construction) exists in this
+    # history, and after: they have no constants, and building / compiling with another spec does not give them any
+    from bloqade.shuttle.stdlib.layouts import single_col_zone
+    bystanders = {"ArchSpec()": ArchSpec(), "single_col_zone.get_spec(2, 2)": single_col_zone.get_spec(2, 2)}
     G0 = logical.get_spec()
+    bystanders["ArchSpec() built afterwards"] = ArchSpec()
+    bystanders["single_col_zone.get_spec(3, 2) built afterwards"] = single_col_zone.get_spec(3, 2)
+    for name, sp in bystanders.items():
+        ctx.evaluations += 1
+        if dict(sp.int_constants) or dict(sp.float_constants):
+            ctx.fail({"kind": "spec-modified", "spec": "bystander without constants"}, {"translated_library_spec": True, "bystander": name},
+                     f"{name}, a spec built without any constant, has the constants {dict(sp.int_constants)} / {dict(sp.float_constants)} once gemini.logical.get_spec() "
+                     f"has been built in the same process")
+        else:
+            ctx.nt(("bystander", name))
     L1 = copy.deepcopy(G0.layout)
     for table in (L1.static_traps, L1.special_grid):
         for k in list(table):
@@ -425,6 +485,8 @@ def run(ctx):
     specs_untouched(ctx, specs, pristine, "after every kernel was run unspecialised under each spec")
     source_reference(ctx, specs, expect)
     translated_library_spec(ctx)
+    long_lived_interpreter(ctx, specs, expect)
+    specs_untouched(ctx, specs, pristine, "after the long-lived interpreter histories")
     ctx.rule = ("histories over 3 kernels sharing 4 generated subroutines (spec lookups of all kinds, loops, a device call) and the library's "
                 "move_by_waypoints, 2 specs with the same zone names but different geometry/constants: every order of compiling 2-3 kernels with "
                 "every assignment of specs, interleaved with executions (exhaustive in the thorough tier, sampled in quick); after every step: "
@@ -513,6 +575,16 @@ def store_model(ctx, hists):
 
 
 def replay(data):
+    if data["input"].get("long_lived"):
+        class C:
+            def __init__(s): s.fails, s.evaluations = [], 0
+            def fail(s, sig, rep, what): s.fails.append(what)
+            def nt(s, *a): pass
+            def count(s, *a): pass
+        c = C()
+        sp = two_specs()
+        long_lived_interpreter(c, sp, expected_logs(sp))
+        return bool(c.fails), (c.fails or ["every unspecialised run plays its own spec"])[0][:200]
     if data["input"].get("translated_library_spec"):
         class C:
             def __init__(s): s.fails, s.evaluations = [], 0
